@@ -41,6 +41,8 @@ func FamilySignature(thorough bool) []*Conv {
 				ExtraMethods: "\t// goverter:update target\n\tGRPPFXInToUGRPPFXOut func(source PFXIn, target *PFXOut)\n", Spec: &Spec{}, Solo: true})
 		}
 		add("update_unknown_arg", f, "source PFXIn, target *PFXOut", "", "", nil, []string{"update nothere"}, "update names a parameter that does not exist")
+		add("update_arg_in_another_case", f, "source PFXIn, target *PFXOut", "", "", nil, []string{"update Target"}, "update names a parameter that exists only in another case")
+		add("update_source_named_like_arg_in_another_case", f, "Target PFXIn, target *PFXOut", "", "", nil, []string{"update target"}, "")
 		add("context_only", f, "ctxA PFXIn", "PFXOut", "", []string{"arg:context:regex ^ctx"}, nil, "no source parameter (the only parameter is a context)")
 		add("default_two_sources", f, "source *PFXIn", "*PFXOut", "func PFXNew2(a *PFXIn, b *PFXIn) *PFXOut { return &PFXOut{} }\n", nil, []string{"default PFXNew2"}, "default function with two source parameters")
 		add("extend_no_result", f, "source PFXIn", "PFXOut", "func PFXNoRes(i int) {}\n", []string{"extend PFXNoRes"}, nil, "extend function without result")
